@@ -24,7 +24,7 @@ def K (t : Nat) : Word :=
 def iv : State := (0x67452301#32, 0xefcdab89#32, 0x98badcfe#32, 0x10325476#32, 0xc3d2e1f0#32)
 
 /-- §5.2.1: sixteen big-endian 32-bit words of a 64-byte block -/
-def parse (block : List Byte) : List Word := (groups 4 block).map fun g => BitVec.ofNat 32 (beVal g)
+def parse (block : List Byte) : List Word := wordsBE 32 block
 
 /-- §6.1.2 step 1: W_t = ROTL^rot(W_{t-3} ⊕ W_{t-8} ⊕ W_{t-14} ⊕ W_{t-16}) for 16 ≤ t ≤ 79 (rot = 1; 0 for SHA-0) -/
 def schedule (rot : Nat) (M : List Word) : List Word :=
@@ -37,12 +37,14 @@ def round (W : List Word) (s : State) (t : Nat) : State :=
   let T := a.rotateLeft 5 + f t b c d + e + K t + W.getD t 0
   (T, a, b.rotateLeft 30, c, d)
 
-/-- §6.1.2 steps 1–4 for one block -/
-def compress (rot : Nat) (H : State) (block : List Byte) : State :=
-  let W := schedule rot (parse block)
+/-- §6.1.2 steps 1–4 for one block given as its sixteen words M -/
+def compressWords (rot : Nat) (H : State) (M : List Word) : State :=
+  let W := schedule rot M
   let (a, b, c, d, e) := (List.range 80).foldl (round W) H
   let (h0, h1, h2, h3, h4) := H
   (a + h0, b + h1, c + h2, d + h3, e + h4)
+
+def compress (rot : Nat) (H : State) (block : List Byte) : State := compressWords rot H (parse block)
 
 def out (H : State) : List Byte :=
   let (h0, h1, h2, h3, h4) := H
